@@ -251,6 +251,49 @@ def sph_vs_cart(run, specs, fname, env):
     return True
 
 
+def type_matrix(specs):
+    """block-diagonal matrix taking the all-Cartesian basis to `specs`: identity for Cartesian shells, kron(I_M, T) for spherical ones"""
+    from gbasis.spherical import generate_transformation
+    cart_specs = [s.copy(sph=False) for s in specs]
+    W = np.zeros((sum(s.size for s in specs), sum(s.size for s in cart_specs)))
+    r = c = 0
+    for s, sc in zip(specs, cart_specs):
+        if s.sph:
+            sh = s.make()
+            blk = np.kron(np.eye(s.nseg), generate_transformation(sh.angmom, sh.angmom_components_cart, sh.angmom_components_sph, "left"))
+        else:
+            blk = np.eye(sc.size)
+        W[r:r + blk.shape[0], c:c + blk.shape[1]] = blk
+        r += blk.shape[0]
+        c += blk.shape[1]
+    return W, cart_specs
+
+
+def asym_case(run, specs1, specs2, rng):
+    """overlap_integral_asymmetric of two bases with their own coordinate-type patterns = W1 . (all-Cartesian result) . W2^T,
+    and with transform_one / transform_two = T1 . that . T2^T"""
+    from gbasis.integrals.overlap_asymm import overlap_integral_asymmetric
+    W1, c1 = type_matrix(specs1)
+    W2, c2 = type_matrix(specs2)
+    cart = overlap_integral_asymmetric(make_basis(c1), make_basis(c2))
+    exp = W1 @ cart @ W2.T
+    got = overlap_integral_asymmetric(make_basis(specs1), make_basis(specs2))
+    run.case(("asym-types",) + sig(specs1) + sig(specs2))
+    run.count("relation asymmetric overlap, type patterns %s|%s" % ("".join("s" if s.sph else "c" for s in specs1), "".join("s" if s.sph else "c" for s in specs2)))
+    rep = {"case": "asym-types", "basis": core.describe_basis(specs1), "basis2": core.describe_basis(specs2), "signature": {"kind": "asym-types"}}
+    if got.shape != exp.shape or np.abs(got - exp).max() > 1e-9 * max(1.0, np.abs(exp).max()):
+        run.violation("overlap_integral_asymmetric: result for two bases with different coordinate types is not the Cartesian result "
+                      f"contracted with each basis' own matrices (shape {got.shape}, expected {exp.shape})", rep)
+        return False
+    T1, T2 = random_transform(rng, exp.shape[0], rect=True), random_transform(rng, exp.shape[1], rect=True)
+    got = overlap_integral_asymmetric(make_basis(specs1), make_basis(specs2), transform_one=T1, transform_two=T2)
+    e2 = T1 @ exp @ T2.T
+    if got.shape != e2.shape or np.abs(got - e2).max() > 1e-9 * max(1.0, np.abs(e2).max()):
+        run.violation("overlap_integral_asymmetric with transform_one / transform_two is not T1 . result . T2^T", rep)
+        return False
+    return True
+
+
 def transform_case(run, specs, fname, env, T):
     f, nax, _ = pf.FUNCS[fname]
     basis = make_basis(specs)
@@ -348,6 +391,23 @@ def check(run):
         specs = [rand_shell(rng, (i + k) % 3, cs, nprim=rng.randint(1, 2), nseg=1 + i % 2, sph=bool((i + k) % 2), exp_lo=0.1, exp_hi=10.0) for i in range(2)]
         sph_vs_cart(run, specs, "eri_chemist", None)
         transform_case(run, specs, "eri_physicist", None, random_transform(rng, sum(s.size for s in specs)))
+    # dispatch of the public functions on the coordinate types: every order of Cartesian and spherical d shells (for s and p shells
+    # the two types coincide, so a wrong branch would go unnoticed), every public function incl. the repulsion integrals
+    for pattern in ((False, True), (True, False), (False, True, False), (True, False, False)):
+        cs = []
+        specs = [rand_shell(rng, 2, cs, nprim=1 + i % 2, nseg=1 + (i + len(pattern)) % 2, sph=pattern[i], exp_lo=0.2, exp_hi=8.0) for i in range(len(pattern))]
+        env = pf.default_env(rng, specs)
+        for fname in pf.FUNCS:
+            if fname.startswith("eri") and (len(pattern) > 2 or (quick and fname != "eri_physicist")):
+                continue
+            sph_vs_cart(run, [s_.copy(coeffs=s_.coeffs[:, :1]) for s_ in specs] if fname.startswith("eri") else specs, fname, env)
+            run.count("dispatch pattern " + "".join("s" if x else "c" for x in pattern))
+    # asymmetric overlap: the two bases carry their own coordinate-type patterns
+    for p1, p2 in (((False, False), (True, True)), ((True, True), (False,)), ((True, False), (False, True)), ((False, True, True), (True, False))):
+        cs = []
+        s1 = [rand_shell(rng, 2 + i % 2, cs, nseg=1 + i % 2, sph=t_, exp_hi=20.0) for i, t_ in enumerate(p1)]
+        s2 = [rand_shell(rng, 2 + (i + 1) % 2, cs, nseg=2 - i % 2, sph=t_, exp_hi=20.0) for i, t_ in enumerate(p2)]
+        asym_case(run, s1, s2, rng)
     # conventions
     for l in range(1, 4):
         ncart = (l + 1) * (l + 2) // 2
